@@ -1966,6 +1966,8 @@ def normal(mean=0.0, std=1.0, size=None, generator=None, **k):
 def randint(low, high=None, size=None, generator=None, device=None, dtype=None, **k):
     if size is None:
         low, high, size = 0, low, high
+    elif high is None:  # torch.randint(high, size=...)
+        low, high = 0, low
     if isinstance(low, Tensor):
         low = low.item()
     if isinstance(high, Tensor):
